@@ -78,8 +78,14 @@ def path(E, R, L, testnet):
     return "ok"
 
 
+def children(E, R):
+    from props import C13
+    return C13.children_real(E, R, False)
+
+
 def cases(tier):
-    cs = []
+    cs = [Case("children", "children", weight=20, max_paths=5000,
+               need=("bulk-generated child equals the single-step derivation of its index",))]
     for form in (32, 33):
         for t in (False, True):
             cs.append(Case("step[form=%d,testnet=%s]" % (form, t), "step", dict(form=form, testnet=t), weight=5,
